@@ -6,7 +6,7 @@
 From DV Require Import Base.Prelude Model.NameM Model.TokM Model.RdTextM.
 From DV Require Import Proofs.NameValid Proofs.NameOrder Proofs.NameText.
 From DV Require Import Proofs.TokEsc Proofs.TokTxt Proofs.TokWords Proofs.TokDec Proofs.TokHex
-     Proofs.TokShape Proofs.TokGeneric Proofs.TokUtf8 Proofs.RdTextName Proofs.RdTextAddr Proofs.RdTextBitmap Proofs.RdTextTypes Proofs.RdTextB32 Proofs.RdText Proofs.RdTextRel.
+     Proofs.TokShape Proofs.TokGeneric Proofs.TokUtf8 Proofs.RdTextName Proofs.RdTextAddr Proofs.RdTextBitmap Proofs.RdTextTypes Proofs.RdTextB32 Proofs.RdTextSig Proofs.RdText Proofs.RdTextRel.
 Open Scope Z_scope.
 
 (* ------------------------------------------------------------------ character-strings *)
@@ -208,6 +208,26 @@ Example generic_roundtrip_nonvacuous :
   /\ generic_to_text [0; 255; 16] 2 [32; 9] = [92; 35; 32; 51; 32; 48; 48; 32; 9; 102; 102; 32; 9; 49; 48].
 Proof. split; vm_compute; reflexivity. Qed.
 
+(* ------------------------------------------------------------------ signature times *)
+
+(* RRSIG / SIG inception and expiration (dns/rdtypes/rrsigbase.py): posixtime_to_sigtime prints the
+   32-bit time as YYYYMMDDHHMMSS (time.gmtime, modelled by the civil-from-days algorithm) and
+   sigtime_to_posixtime reads it back (string slices, int(), the proleptic Gregorian day count of
+   calendar.timegm): equal for every value of the field, the text being one tokenizer word. *)
+Theorem sigtime_text_roundtrip : forall t, 0 <= t <= 4294967295 ->
+  sigtime_to_posixtime (posixtime_to_sigtime t) = Ok t
+  /\ forallb safe (posixtime_to_sigtime t) = true /\ posixtime_to_sigtime t <> [].
+Proof. exact sigtime_roundtrip. Qed.
+Print Assumptions sigtime_text_roundtrip.
+
+Example sigtime_examples :
+  posixtime_to_sigtime 0 = [49;57;55;48;48;49;48;49;48;48;48;48;48;48]                   (* 19700101000000 *)
+  /\ posixtime_to_sigtime 951782399 = [50;48;48;48;48;50;50;56;50;51;53;57;53;57]        (* 20000228235959 *)
+  /\ posixtime_to_sigtime 951782400 = [50;48;48;48;48;50;50;57;48;48;48;48;48;48]        (* 20000229000000 *)
+  /\ posixtime_to_sigtime 4294967295 = [50;49;48;54;48;50;48;55;48;54;50;56;49;53]       (* 21060207062815 *)
+  /\ sigtime_to_posixtime [50;49;48;54;48;50;48;55;48;54;50;56;49;53] = Ok 4294967295.
+Proof. repeat split; vm_compute; reflexivity. Qed.
+
 (* ------------------------------------------------------------------ whole records *)
 
 (* The regular rdata types as field lists (schema_of): decimal fields of every width, TTLs, names,
@@ -269,12 +289,16 @@ Definition ex_soa : list tval :=
   [VName [[64; 46; 0]; [101; 120]; []]; VName [[]]; VInt 4294967295; VInt 0; VInt 1; VInt 7; VInt 2147483647].
 Definition ex_naptr : list tval :=
   [VInt 65535; VInt 0; VBytes [34; 92; 200]; VBytes []; VBytes [59; 40]; VName [[255]; [69; 88]; []]].
+Definition ex_rrsig : list tval :=
+  [VInt 65280; VInt 13; VInt 255; VInt 2147483647; VInt 4294967295; VInt 951782400; VInt 65535;
+   VName [[115]; [101; 120]; []]; VBytes [0; 255; 62; 63]].
 Definition ex_soa_fs : list tfield := [FName; FName; u32; FTtl; FTtl; FTtl; FTtl].
 Definition ex_naptr_fs : list tfield := [u16; u16; cstr; cstr; cstr; FName].
 
 Example text_roundtrip_schema_hypotheses :
   schema_of 6 = Some ex_soa_fs /\ schema_of 35 = Some ex_naptr_fs /\ style_ok ex_sty /\
-  Forall2 val_ok ex_soa_fs ex_soa /\ Forall2 val_ok ex_naptr_fs ex_naptr.
+  Forall2 val_ok ex_soa_fs ex_soa /\ Forall2 val_ok ex_naptr_fs ex_naptr /\
+  exists fs, schema_of 46 = Some fs /\ schema_of 24 = Some fs /\ Forall2 val_ok fs ex_rrsig.
 Proof.
   assert (N : forall n, validate_labels n = Ok tt -> Forall (fun l => forallb is_byte l = true) n -> Valid n /\ AllBytes n).
   { intros n H1 H2. split; [apply validate_iff, H1|]. unfold AllBytes.
@@ -282,12 +306,16 @@ Proof.
     intros x Hx. apply is_byte_range, Hl, Hx. }
   split; [reflexivity|]. split; [reflexivity|]. split.
   { split; [reflexivity|]. split; [reflexivity|]. apply N; [reflexivity|repeat constructor]. }
-  split.
+  split; [|split].
   - unfold ex_soa_fs, ex_soa, u32. repeat (apply Forall2_cons || apply Forall2_nil); cbn [val_ok];
       try (apply N; [reflexivity|repeat constructor]); unfold MAX_TTL; lia.
   - unfold ex_naptr_fs, ex_naptr, u16, cstr. repeat (apply Forall2_cons || apply Forall2_nil); cbn [val_ok];
       try (apply N; [reflexivity|repeat constructor]); try lia;
       (split; [reflexivity|]; split; [left; reflexivity|]; split; [right; unfold zlen; cbn; lia|discriminate]).
+  - eexists. split; [reflexivity|]. split; [reflexivity|]. unfold ex_rrsig.
+    repeat (apply Forall2_cons || apply Forall2_nil); cbn [val_ok enum_max];
+      try (apply N; [reflexivity|repeat constructor]); try (unfold MAX_TTL; lia).
+    split; [reflexivity|discriminate].
 Qed.
 
 Example text_roundtrip_schema_computed :
@@ -295,8 +323,14 @@ Example text_roundtrip_schema_computed :
   = Ok (VName [[64; 46; 0]] :: tl ex_soa)
   /\ expects ex_sty ex_ctx ex_soa_fs ex_soa = Ok (VName [[64; 46; 0]] :: tl ex_soa)
   /\ (do text <- record_to_text ex_sty ex_naptr_fs ex_naptr; record_from_text ex_ctx ex_naptr_fs text)
-    = Ok [VInt 65535; VInt 0; VBytes [34; 92; 200]; VBytes []; VBytes [59; 40]; VName [[255]]].
-Proof. split; [vm_compute; reflexivity|]. split; vm_compute; reflexivity. Qed.
+    = Ok [VInt 65535; VInt 0; VBytes [34; 92; 200]; VBytes []; VBytes [59; 40]; VName [[255]]]
+  /\ match schema_of 46 with
+     | Some fs => (do text <- record_to_text ex_sty fs ex_rrsig; record_from_text ex_ctx fs text)
+                  = Ok [VInt 65280; VInt 13; VInt 255; VInt 2147483647; VInt 4294967295; VInt 951782400; VInt 65535;
+                        VName [[115]]; VBytes [0; 255; 62; 63]]
+     | None => False
+     end.
+Proof. split; [vm_compute; reflexivity|]. split; [vm_compute; reflexivity|]. split; vm_compute; reflexivity. Qed.
 
 (* ------------------------------------------------------------------ accepted from text => encodable *)
 
